@@ -1,6 +1,7 @@
 package driver
 
 import (
+	"runtime"
 	"time"
 	"encoding/json"
 	"fmt"
@@ -164,8 +165,10 @@ func execArgs(a *argSet, obj sim.TimeSteppingModel, variant, cut int, tailSeed f
 	// (zones with daylight saving on both hemispheres, and UTC)
 	if len(envZones) > 0 {
 		time.Local = envZones[(envTick+envZoneShift)%len(envZones)]
-		envTick++
 	}
+	// ... and different processor counts
+	runtime.GOMAXPROCS([]int{1, 2, 3, 16, 6}[(envTick+envZoneShift)%5])
+	envTick++
 	obj.Run(bufs.in, bufs.st, bufs.out)
 	return obj, bufs, flat3(bufs.out), flat2(bufs.st), T
 }
@@ -191,12 +194,22 @@ func init() {
 func enginePure(rc *RunCtx) *Outcome {
 	o := &Outcome{}
 	w := rc.W
+	envTick = int(rc.Seed % 60) // the environment sequence of a run is a function of the run's seed
 	nSets := 2 + w.Choose(3)
 	var sets []*argSet
 	var modelsUsed []string
 	for i := 0; i < nSets; i++ {
 		c := drawCellCase(w, 3, 16)
 		c.DN, c.DO, c.DT = 0, 0, 0
+		if i == 0 && c.Model != "Storage" && c.Model != "Sacramento" && c.Model != "StorageRouting" && !c.Warm && w.Choose(40) == 39 {
+			// a long series (4096-6600 timesteps: where a kernel might start splitting its work)
+			c.T = 4096 + w.Choose(2500)
+			c.inBlocks = nil
+			for b := 0; b < c.I; b++ {
+				c.inBlocks = append(c.inBlocks, domains.GenInputs(w, c.Model, c.cols[b%c.P], c.MaxDim, c.T))
+			}
+			o.probe("argument_set_with_more_than_4096_timesteps")
+		}
 		if c.T < 2 {
 			c.T = 2
 			// regenerate inputs of the right length
